@@ -250,8 +250,9 @@ impl<'h> Interp<'h> {
             let list: &[&str] = match name.as_str() {
                 "(lipe)" => LIPE_CORE,
                 "(lipe find)" => LIPE_FIND,
-                "(ice-9 threads)" | "(ice-9 format)" | "(srfi srfi-1)" | "(ice-9 rdelim)" => &[],
-                other => return err(format!("no code for module {other}")),
+                // any other module is taken to exist and to export nothing the model knows: a
+                // procedure that is really missing still shows up as an unbound variable
+                _ => &[],
             };
             let mut v = self.global.vars.borrow_mut();
             for p in list {
